@@ -611,6 +611,10 @@ class OrderedMultiDict(MultiDict[_K, _T]):
         for key, value in values:
             self.add(key, value)
 
+    def deepcopy(self, memo=None):
+        """Return a deep copy of this object, keeping the order of interleaved keys."""
+        return self.__class__(deepcopy(list(self.items(multi=True)), memo))
+
     def __getitem__(self, key: _K) -> _T:
         if key in self:
             return dict.__getitem__(self, key)[0].value
